@@ -26,7 +26,8 @@ use crate::Ctx;
 
 pub fn gen_case(rng: &mut Rng, idx: usize, thorough: bool) -> Value {
     if idx % 2 == 0 {
-        return json!({"kind": "stop", "seed": rng.next() % 1_000_000_000, "len": if thorough { 40 } else { 24 }, "invalid_utf8": idx % 6 == 4});
+        let directed = idx % 4 == 2;
+        return json!({"kind": "stop", "seed": rng.next() % 1_000_000_000, "len": if directed { idx / 4 % 4 } else if thorough { 40 } else { 24 }, "invalid_utf8": idx % 12 == 4, "directed": directed});
     }
     let steps = if thorough { 30 } else { 16 };
     if idx % 4 == 1 {
@@ -86,12 +87,13 @@ fn run_stop(_ctx: &Ctx, case: &Value, tag: usize, rep: &mut Report, mb: &mut Mod
     let env: TokEnv = vocab::env_from_words(&words, eos, false);
     // stop set: strings such that none is a suffix of another (unambiguous "first occurrence")
     let pool = ["stop", "END", "🐢c", "ö", "ab", "語 ", "d, ", "STOP", "xy"];
+    let directed = case["directed"].as_bool().unwrap_or(false);
     let mut stops: Vec<String> = vec![];
-    for _ in 0..rng.below(4) {
+    for _ in 0..(if directed { 1 + rng.below(3) } else { rng.below(4) }) {
         let s = rng.pick(&pool).to_string();
         if !stops.iter().any(|x| x.ends_with(&s) || s.ends_with(x.as_str())) { stops.push(s); }
     }
-    let stop_tokens: Vec<u32> = if rng.chance(1, 3) { vec![eos] } else if rng.chance(1, 2) { vec![eos, rng.below(words.len() - 3) as u32] } else { vec![] };
+    let stop_tokens: Vec<u32> = if directed || rng.chance(1, 3) { vec![eos] } else if rng.chance(1, 2) { vec![eos, rng.below(words.len() - 3) as u32] } else { vec![] };
     let Ok(mut sc) = StopController::new(env.clone(), stop_tokens.clone(), None, stops.clone()) else { rep.skip("stop-controller-rejected"); return; };
     let stops_b: Vec<Vec<u8>> = stops.iter().map(|s| s.as_bytes().to_vec()).collect();
     mb.push("reset".into(), "ok".into(), tag);
@@ -122,6 +124,27 @@ fn run_stop(_ctx: &Ctx, case: &Value, tag: usize, rep: &mut Report, mb: &mut Mod
         sofar.extend_from_slice(&words[pos]);
         if std::str::from_utf8(&sofar).is_ok() { sofar.clear(); }
         pos += 1;
+    }
+    // directed tail: a proper prefix of a stop string (withheld by the controller) followed by a
+    // stop token, or by a special token, or by unrelated text
+    if !stops.is_empty() && (directed || rng.chance(2, 3)) {
+        let s = rng.pick(&stops).clone();
+        let sb = s.as_bytes();
+        let cut = 1 + rng.below(sb.len().max(2) - 1);
+        let prefix = &sb[..cut.min(sb.len() - 1).max(1)];
+        let mut ok = true;
+        let mut pre_toks = vec![];
+        for b in prefix {
+            match words.iter().position(|w| w.len() == 1 && w[0] == *b) { Some(i) => pre_toks.push(i as u32), None => { ok = false; break; } }
+        }
+        if ok && std::str::from_utf8(&sofar).is_ok() {
+            seq.extend(pre_toks);
+            match rng.below(3) {
+                0 if !stop_tokens.is_empty() => { seq.push(stop_tokens[0]); rep.count("stop.tail.prefix_then_stop_token"); }
+                1 => { seq.push(words.len() as u32 - 2); rep.count("stop.tail.prefix_then_special"); }
+                _ => { seq.push((n_pieces + rng.below(9)) as u32); rep.count("stop.tail.prefix_then_text"); }
+            }
+        }
     }
     // oracle bookkeeping: text since the last special/empty token
     let mut outputs: Vec<String> = vec![];
